@@ -281,7 +281,7 @@ def replay(obj):
         if r['stream'] == 'round' and 'alpha' in out:
             rows = [tuple(st.round7(F(x)) for x in rr) for rr in out['alpha']]
             ac = {tuple(st.round7(F(x)) for x in k): F(v) for k, v in out['alpha_c']}
-            if ac != dict(zip(rows, [F(x) for x in out['c']])):
+            if ac != dict(zip(rows, [F(x) for x in out['c']])) or len(out['alpha_c']) != len(rows):
                 why = 'alpha_c inconsistent with (alpha, c)'
     print('case:', common.canon_json(c))
     print('implementation returned:', common.canon_json(out))
